@@ -162,7 +162,7 @@ def diagnose(workdir, rc):
     m = re.search(r"ERROR: AddressSanitizer:? ([^\n]*)", text)
     head = m.group(1).strip() if m else "unknown"
     kind = re.split(r" on | in |:|\(", head)[0].strip().replace(" ", "-") or "unknown"
-    detail = head[:160]
+    detail = re.sub(r" (on address|at pc|bp|sp) 0x[0-9a-f]+", "", head)[:160].strip()     # addresses vary from run to run
     if kind == "SEGV":
         am = re.search(r"unknown address (0x[0-9a-f]+)", head)
         rw = re.search(r"caused by a (READ|WRITE) memory access", text)
@@ -176,8 +176,11 @@ def diagnose(workdir, rc):
             where = None
         if where and where[1] in ("overrun", "underrun"):
             kind = "guard-page-%s-%s" % (where[1], rw)
-            detail = "%s of %d+ byte(s) past the %s of the guard-paged %s buffer (fault address %s)" % (
-                rw, 1, "end" if where[1] == "overrun" else "start", re.sub(r"-\d+$", "", where[0]), am.group(1))
+            page = G.PAGE
+            off = int(am.group(1), 16) % page
+            dist = off + 1 if where[1] == "overrun" else page - off
+            detail = "%s access %d byte(s) past the %s of the guard-paged %s buffer" % (
+                rw, dist, "end" if where[1] == "overrun" else "start", re.sub(r"-\d+$", "", where[0]))
         else:
             kind = "SEGV-%s" % rw
     else:
@@ -186,7 +189,7 @@ def diagnose(workdir, rc):
             detail += " (%s of size %s)" % (extra.group(1), extra.group(2))
         loc = re.search(r"is located (\d+ bytes [^\n]{0,80})", text)
         if loc:
-            detail += "; address " + loc.group(1).strip()
+            detail += "; address " + re.sub(r"\[0x[0-9a-f]+,0x[0-9a-f]+\)", "", loc.group(1)).strip()
     site = "?"
     for fm in re.finditer(r"#\d+ 0x[0-9a-f]+\s+\((/[^)]*?/Crypto/[^)]*?/([^/)]+?)\.abi3\.so)\+(0x[0-9a-f]+)\)", text):
         fn, line = symbolize(fm.group(1), fm.group(3))
